@@ -7,7 +7,7 @@ fn main() {
         eprintln!("usage: daacmc check <ID> quick|thorough | replay <path>");
         std::process::exit(2);
     }
-    util::install_guards(30);
+    util::install_guards(90);
     match args[1].as_str() {
         "check" => {
             let prop = args[2].as_str();
